@@ -303,7 +303,7 @@ REQUIRED = {
         "faults": ["bad_data", "singular", "interrupt", "flaky", "bad_cuts"],
     },
     "C01": {"probes": ["prange_permuted", "refit_on_other_data", "sharing_detector_ran", "param_changed", "data_mutated_in_place", "step_on_second_instance", "exhaustive_interval_cases"], "faults": ["singular", "interrupt", "bad_cuts", "bad_param"]},
-    "C17": {"probes": ["U_set_params", "U_fit_after_A_fit", "A_update_ok", "A_recovered_by_fit", "compared_after_failed_predict", "compared_after_recovery", "compared_on_update_lineage", "nonempty_expected", "exhaustive_script_cases", "dataset_mutated_in_place"], "faults": ["bad_data", "interrupt", "flaky"]},
+    "C17": {"probes": ["U_set_params", "U_fit_after_A_fit", "A_update_ok", "A_recovered_by_fit", "compared_after_failed_predict", "compared_after_recovery", "compared_on_update_lineage", "nonempty_expected", "exhaustive_script_cases", "dataset_mutated_in_place", "transform_judged"], "faults": ["bad_data", "interrupt", "flaky"]},
 }
 
 
